@@ -72,6 +72,38 @@ pub fn configs(tier: Tier) -> Vec<Cfg> {
             v.push(Cfg { name: format!("param_sets:sps={},pps={}", sl, pl), movie, alphabet: al, max_len: depth });
         }
     }
+    // parameter-set contents: every byte string of length 0..6 over {00, 01, 67} (start-code look-alikes, short
+    // headers behind them), as the SPS and as the PPS
+    {
+        let mut strings: Vec<Vec<u8>> = vec![vec![]];
+        let mut frontier: Vec<Vec<u8>> = vec![vec![]];
+        for _ in 0..6 {
+            let mut next = vec![];
+            for s in frontier.iter() {
+                for b in [0u8, 1, 0x67] {
+                    let mut t = s.clone();
+                    t.push(b);
+                    next.push(t);
+                }
+            }
+            strings.extend(next.iter().cloned());
+            frontier = next;
+        }
+        for s in strings.iter() {
+            for which in 0..2 {
+                let mut t = TrackSpec::new(Kind::Avc, 1000);
+                if which == 0 {
+                    t.sps = s.clone();
+                } else {
+                    t.pps = s.clone();
+                }
+                let movie = MovieSpec::new(1000, vec![t]);
+                let mut al = vec![Call::Add(0)];
+                al.extend(sample_ops(&[1], &[1], &[500], &[0]));
+                v.push(Cfg { name: format!("param_set_bytes:{}={}", if which == 0 { "sps" } else { "pps" }, hex(s)), movie, alphabet: al, max_len: 3 });
+            }
+        }
+    }
     // languages and brands of any bytes
     let langs: Vec<String> = vec!["".into(), "x".into(), "xy".into(), "ENG".into(), "\u{65e5}\u{672c}\u{8a9e}".into(), "z".repeat(300), "\0\0\0".into(), "\u{1F600}a".into()];
     for lang in langs {
